@@ -21,7 +21,7 @@ import (
 func worldDigest(w *World) string {
 	var sb strings.Builder
 	for _, st := range w.subs {
-		snap := verifapi.Snapshot(st.supi)
+		snap := snapshot(st.supi)
 		fmt.Fprintf(&sb, "%s exists=%v locked=%v res=%v type=%v sessions=%v nrec=%d uri=%s|", st.supi, snap.Exists, snap.Locked, sortedMap(snap.Reserved), sortedMapI(snap.RatingType), snap.Sessions, snap.NRecords, snap.NotifyUri)
 		list, by, _ := verifapi.Records(st.supi)
 		b1, _ := json.Marshal(list)
@@ -29,7 +29,7 @@ func worldDigest(w *World) string {
 		hh := sha1.Sum(append(b1, b2...))
 		sb.WriteString(hex.EncodeToString(hh[:8]))
 		for rg := int32(1); rg <= 3; rg++ {
-			q, _ := env.Quota(st.supi, rg)
+			q, _ := acctQuota(st.supi, rg)
 			fmt.Fprintf(&sb, " q%d=%d", rg, q)
 		}
 		sb.WriteString("\n")
@@ -83,7 +83,7 @@ func judgeC12(hst Hist) *h.Verdict {
 			}
 			switch op.Bad {
 			case "unknown-sub":
-				req.SubscriberIdentifier = "imsi-0000" + st.supi[9:]
+				req.SubscriberIdentifier = "imsi-5555" + st.supi[9:]
 				ref := "nosuchsession"
 				if len(lv) > 0 {
 					ref = lv[0].ref
@@ -107,7 +107,7 @@ func judgeC12(hst Hist) *h.Verdict {
 			default:
 				continue
 			}
-			snap := verifapi.Snapshot(st.supi)
+			snap := snapshot(st.supi)
 			visible := snap.NRecords > 0 && (snap.Reserved[1] != 0 || snap.Reserved[2] != 0 || snap.Reserved[3] != 0)
 			body, _ := json.Marshal(req)
 			_ = verifapi.LoggedErrors()
@@ -128,7 +128,7 @@ func judgeC12(hst Hist) *h.Verdict {
 		if op.K == "respell" {
 			// a recharge whose rating group is written with leading zeros, for any rating group number: the
 			// notification names the number the decimal digits denote (or the spelling is rejected, without effect)
-			if !verifapi.Snapshot(st.supi).Exists {
+			if !snapshot(st.supi).Exists {
 				continue
 			}
 			env.Notifications()
@@ -167,7 +167,7 @@ func judgeC12(hst Hist) *h.Verdict {
 			}
 			continue
 		}
-		pre := verifapi.Snapshot(st.supi)
+		pre := snapshot(st.supi)
 		env.Notifications()
 		res := w.Exec(op)
 		if res.Skipped {
@@ -244,7 +244,7 @@ func judgeC12(hst Hist) *h.Verdict {
 			if st.creates > 1 {
 				v.NT("recharge-after-several-registrations")
 			}
-			if len(n.Body.ReauthorizationDetails) != 1 || n.Body.ReauthorizationDetails[0].RatingGroup != rg {
+			if len(n.Body.ReauthorizationDetails) != 1 || n.Body.ReauthorizationDetails[0].RatingGroup != act(st.supi, rg) {
 				return v.Failf("recharge-notify-body", "step %d: notification body %s does not name exactly rating group %d", step, n.Raw, rg)
 			}
 		}
@@ -256,7 +256,7 @@ func judgeC12(hst Hist) *h.Verdict {
 }
 
 func genC12(t *rapid.T) Hist {
-	hst := genHist(t, genOpts{maxSubs: 2, maxSess: 2, minOps: 4, maxOps: h.Scale(16, 30), recharge: true, offline: true})
+	hst := genHist(t, genOpts{maxSubs: 2, maxSess: 2, minOps: 4, maxOps: h.Scale(16, 30), recharge: true, offline: true, rgNums: true})
 	// interleave rejected requests
 	var ops []Op
 	for _, op := range hst.Ops {
